@@ -70,6 +70,18 @@ def path_types(bp, x, upto=None):
     return out - neg
 
 
+def dedup_test(step):
+    """a branch decision `id(x) in visited` / `id(x) not in visited` -> (x-term-or-None, key term, visited,
+    is_member) ; None if the step is no membership test"""
+    if step[0] != 'T':
+        return None
+    t = step[1]
+    if not (isinstance(t, tuple) and t[:1] == ('CMP',) and len(t) == 4 and t[1] in (('In',), ('NotIn',))):
+        return None
+    member = step[2] if t[1] == ('In',) else (not step[2])
+    return t[2], t[3], member
+
+
 def local_helpers(fn):
     return {n.name: n for n in fn.body if isinstance(n, ast.FunctionDef)} | {
         n.name: n for st in ast.walk(fn) for n in ([st] if isinstance(st, ast.FunctionDef) and st is not fn else [])}
@@ -170,27 +182,26 @@ def check_walker(fn, what, kind, bad):
                                           f'instead of id(node): de-duplication becomes structural '
                                           f'(distinct but equal objects are skipped, hashing recurses)')
         for st in bp.steps:
-            if st[0] == 'T' and isinstance(st[1], tuple) and st[1][:1] == ('CMP',) and st[1][1] in (('In',), ('NotIn',)) \
-                    and (st[1][3] in vis_sets or (isinstance(st[1][3], tuple) and st[1][3][:1] == ('OBJ',)
-                                                   and 'visit' in st[1][3][1])) \
-                    and not is_call(st[1][2], 'id'):
+            d = dedup_test(st)
+            if d and (d[1] in vis_sets or (isinstance(d[1], tuple) and d[1][:1] == ('OBJ',)
+                                           and 'visit' in d[1][1])) and not is_call(d[0], 'id'):
                 bad('C15-dedup-identity', f'{what}: membership in the visited set is tested on '
-                                          f'{P.tfmt(st[1][2])} instead of id(node)')
+                                          f'{P.tfmt(d[0])} instead of id(node)')
         # identity de-duplication only for expandable nodes
         for st in bp.steps:
-            if st[0] == 'T' and isinstance(st[1], tuple) and st[1][:2] == ('CMP', ('In',)) \
-                    and is_call(st[1][2], 'id') and len(st[1][2]) == 3:
-                x = st[1][2][2]
-                vis = st[1][3]
+            d = dedup_test(st)
+            if d and is_call(d[0], 'id') and len(d[0]) == 3:
+                x = d[0][2]
+                vis = d[1]
                 types = path_types(bp, x, upto=st)
                 if not types or not types <= EXPANDABLE:
                     bad('C15-dedup-leaves', f'{what}: the identity test `id(x) in visited` is applied to any '
                                             f'node, not only after an isinstance test for '
                                             f'ParsedObject/list/tuple/dict: equal leaf objects (None, small '
                                             f'ints, interned strings) are dropped after their first occurrence')
-                if not st[2]:
+                if not d[2]:
                     adds = [e for e in bp.events() if e[1] == 'call:add' and e[2] == vis
-                            and e[3] == (st[1][2],)]
+                            and e[3] == (d[0],)]
                     if not adds:
                         bad('C15-dedup', f'{what}: a node that passed the identity test is not recorded '
                                          f'as visited: a shared object is expanded more than once')
@@ -209,7 +220,7 @@ def check_visit(fn, what, bad):
                 bad('C15-visit-yield', f'{what}: yields {[P.tfmt(y[1]) for y in ys]}, expected the popped node once')
             if 'ParsedObject' not in types:
                 bad('C15-visit-yield', f'{what}: yields a node that was not tested to be a ParsedObject')
-            dedup = [s for s in bp.tests() if isinstance(s[1], tuple) and s[1][:2] == ('CMP', ('In',))]
+            dedup = [s for s in bp.tests() if dedup_test(s)]
             if not dedup:
                 bad('C15-dedup', f'{what}: a parsed object is yielded without the identity test: shared '
                                  f'objects are yielded more than once')
@@ -470,13 +481,19 @@ def check_transform(fns, what, bad):
             bad('C16-shape', f'{what}: _transform has no branch for {k} nodes')
     # ---- the callback chain
     inner = [n for n in tf.body if isinstance(n, ast.FunctionDef)]
-    if len(inner) != 1:
-        raise AnalysisError(f'{what}: transform() no longer wraps the callbacks in one local function')
-    cb = inner[0]
+    # the callback chain is the local function handed to the rebuild; other local functions are helpers
+    handed = set()
+    for n in ast.walk(tf):
+        if isinstance(n, ast.Call) and isinstance(n.func, ast.Name) and n.func.id == rt.name:
+            handed |= {a.id for a in n.args if isinstance(a, ast.Name)}
+    chain = [n for n in inner if n.name in handed]
+    if len(chain) != 1:
+        raise AnalysisError(f'{what}: transform() does not hand one local callback chain to {rt.name}')
+    cb = chain[0]
     vararg = tf.args.vararg.arg if tf.args.vararg else None
     if vararg is None:
         raise AnalysisError(f'{what}: transform() signature changed')
-    E2 = P.Enumerator()
+    E2 = P.Enumerator(helpers={n.name: n for n in inner if n is not cb})
     cps = E2.function(cb)
     stats['paths'] += len(cps)
     loops = [s for p in cps for s in p.steps if s[0] == 'LOOP']
@@ -498,7 +515,8 @@ def check_transform(fns, what, bad):
         for e in muts:
             if e[1] == 'call:update' and e[2] == ('ATTR', NEW, '_metadata') and e[3] == (('ATTR', PREV, '_metadata'),):
                 need = {
-                    'node is not prev': any(t[2] and t[1] in (('CMP', ('IsNot',), NEW, PREV), ('CMP', ('IsNot',), PREV, NEW))
+                    'node is not prev': any((t[2] and t[1] in (('CMP', ('IsNot',), NEW, PREV), ('CMP', ('IsNot',), PREV, NEW)))
+                                            or ((not t[2]) and t[1] in (('CMP', ('Is',), NEW, PREV), ('CMP', ('Is',), PREV, NEW)))
                                             for t in bp.tests()),
                     'isinstance(prev, ParsedObject)': any(t[2] and isinstance_types(t[1]) == (PREV, {'ParsedObject'}) for t in bp.tests()),
                     'isinstance(node, ParsedObject)': any(t[2] and isinstance_types(t[1]) == (NEW, {'ParsedObject'}) for t in bp.tests()),
